@@ -5,6 +5,8 @@ from __future__ import annotations
 import ast
 
 from gv import rules
+from gv.astutil import AnalysisError
+from gv.astutil import as_update
 from gv.astutil import decorator_names
 from gv.astutil import dotted
 from gv.astutil import last_attr
@@ -13,9 +15,11 @@ from gv.astutil import norm_stmt
 from gv.astutil import stmts_of
 from gv.astutil import walk_body
 from gv.cfg import cfg_of
+from gv.dataflow import SymValues
 from gv.dataflow import possibly_unbound
 from gv.props import describe
 from gv.props.shared import branch_conditions
+from gv.props.shared import conj_literals
 from gv.props.shared import lock_discipline
 from gv.report import Ctx
 from gv.report import cname
@@ -40,29 +44,114 @@ describe(
 )
 
 
+def _binders(f: ast.AST, cfg, name: str) -> set[int]:
+    """CFG nodes that (re)bind the local ``name`` (assignment / loop / with targets, walrus, handler names)."""
+    out = set()
+    for n in walk_body(f):
+        if isinstance(n, ast.Name) and isinstance(n.ctx, (ast.Store, ast.Del)) and n.id == name and cfg.has(n):
+            out.add(cfg.node_of(n))
+        elif isinstance(n, ast.ExceptHandler) and n.name == name and cfg.has(n):
+            out.add(cfg.node_of(n))
+    return out
+
+
+def _reaching(cfg, binders: set[int], src: int, use: int, stop: set[int]) -> set:
+    """The binders of one local whose value can be read at ``use`` on a path that starts at ``src`` and never passes
+    ``stop`` (normal and exceptional edges); ``None`` stands for the value the local had when ``src`` was reached."""
+    out: set = set()
+    if src in binders:
+        if cfg.path(src, use, avoid=(binders - {src}) | stop, exc=True) is not None:
+            out.add(src)
+    elif cfg.path(src, use, avoid=binders | stop, exc=True) is not None:
+        out.add(None)
+    for d in binders - {src} - stop:  # a binder in ``stop`` (the loop header) is only reached by ending the iteration
+        if cfg.path(src, d, avoid=stop, exc=True) is not None and cfg.path(d, use, avoid=(binders - {d}) | stop, exc=True) is not None:
+            out.add(d)
+    return out
+
+
+class _QueueItem:
+    """Which component (0 = index, 1 = input) of the item taken from the queue IN THIS ITERATION an expression of the
+    worker loop denotes, whether the item is unpacked in the loop header, by ``a, b = item`` or read as ``item[k]``."""
+
+    def __init__(self, f: ast.AST, cfg, loop: ast.For):
+        self.f, self.cfg, self.loop = f, cfg, loop
+        self.head = cfg.node_of(loop)
+        self.start = cfg.branch[(self.head, True)]
+
+    def _defs(self, name: str, use: int) -> set:
+        return _reaching(self.cfg, _binders(self.f, self.cfg, name), self.start, use, {self.head})
+
+    def _is_item(self, e: ast.AST, use: int) -> bool:
+        t = self.loop.target
+        return isinstance(e, ast.Name) and isinstance(t, ast.Name) and e.id == t.id and self._defs(e.id, use) == {None}
+
+    def component(self, e: ast.AST | None, use: int, depth: int = 0) -> int | None:
+        t = self.loop.target
+        if e is None or depth > 4:
+            return None
+        if isinstance(e, ast.Subscript) and isinstance(e.slice, ast.Constant) and e.slice.value in (0, 1) and type(e.slice.value) is int and self._is_item(e.value, use):
+            return e.slice.value
+        if not isinstance(e, ast.Name):
+            return None
+        if isinstance(t, (ast.Tuple, ast.List)) and len(t.elts) == 2:
+            ks = [k for k, el in enumerate(t.elts) if isinstance(el, ast.Name) and el.id == e.id]
+            if ks:
+                return ks[0] if len(ks) == 1 and self._defs(e.id, use) == {None} else None
+        found = set()
+        defs = self._defs(e.id, use)
+        if not defs:
+            return None
+        for d in defs:
+            st = self.cfg.ast[d] if d is not None else None
+            if not (isinstance(st, ast.Assign) and len(st.targets) == 1):
+                return None
+            tg = st.targets[0]
+            if isinstance(tg, (ast.Tuple, ast.List)) and len(tg.elts) == 2 and self._is_item(st.value, d):
+                ks = [k for k, el in enumerate(tg.elts) if isinstance(el, ast.Name) and el.id == e.id]
+                if len(ks) != 1:
+                    return None
+                found.add(ks[0])
+            elif isinstance(tg, ast.Name):
+                found.add(self.component(st.value, d, depth + 1))
+            else:
+                return None
+        return found.pop() if len(found) == 1 else None
+
+
 def check_worker(ctx: Ctx) -> None:
     f = ctx.index.func(CP, "_execute_workers")
     con = cname(CP, None, "_execute_workers")
     cfg = cfg_of(f)
-    loops = [s for s in stmts_of(f) if isinstance(s, ast.For)]
-    ctx.need(len(loops) == 1 and isinstance(loops[0].target, ast.Tuple) and len(loops[0].target.elts) == 2, "_execute_workers: task loop not found")
-    lp = loops[0]
-    idx, inp = (dotted(e) for e in lp.target.elts)
     qin, qout = f.args.args[1].arg, f.args.args[2].arg
-    ok = isinstance(lp.iter, ast.Call) and dotted(lp.iter.func) == "iter" and dotted(lp.iter.args[0]) == f"{qin}.get" and isinstance(lp.iter.args[1], ast.Constant) and lp.iter.args[1].value is None
-    ctx.ob("13.1-worker-item", con, ok, "a worker must take (index, input) items from the input queue until the None sentinel", node=lp)
+
+    def from_queue(it: ast.AST) -> bool:
+        return isinstance(it, ast.Call) and dotted(it.func) == "iter" and len(it.args) == 2 and dotted(it.args[0]) == f"{qin}.get" and isinstance(it.args[1], ast.Constant) and it.args[1].value is None
+
+    loops = [s for s in stmts_of(f) if isinstance(s, ast.For)]
+    ctx.need(len(loops) == 1, "_execute_workers: task loop not found")
+    lp = loops[0]
+    item = _QueueItem(f, cfg, lp)
+    head, start = item.head, item.start
+    ctx.ob("13.1-worker-item", con, from_queue(lp.iter), "a worker must take (index, input) items from the input queue until the None sentinel", node=lp)
     calls = [c for c in ast.walk(lp) if isinstance(c, ast.Call) and dotted(c.func) == f.args.args[0].arg]
-    ok = len(calls) == 1 and [dotted(a) for a in calls[0].args] == [idx, inp]
+    ok = len(calls) == 1 and not calls[0].keywords and [item.component(a, cfg.node_of(calls[0])) for a in calls[0].args] == [0, 1]
     ctx.ob("13.1-worker-item", con, ok, "the task must be executed with the index and the input of the same queue item", node=(calls or [lp])[0])
     puts = [c for c in ast.walk(lp) if isinstance(c, ast.Call) and dotted(c.func) == f"{qout}.put"]
-    ctx.ob("13.2-one-answer", con, len(puts) == 2, "the worker must answer on the normal path and on the exception path", node=lp, stmt="two put sites (normal, exception)")
+    put_nodes = {cfg.node_of(p) for p in puts}
+    # the try statement that guards the task
+    tries = [s for s in ast.walk(lp) if isinstance(s, ast.Try) and calls and any(sub is calls[0] for b in s.body for sub in ast.walk(b))]
+    guarded = len(tries) == 1 and len(tries[0].handlers) == 1 and dotted(tries[0].handlers[0].type) == "BaseException" and tries[0].handlers[0].name is not None
+    hn = cfg.node_of(tries[0].handlers[0]) if guarded else None
+    ok = bool(puts) and guarded and len(calls) == 1
+    if ok:
+        # an answer follows the normal completion of the task, and an answer follows its failure
+        ok = cfg.path(cfg.node_of(calls[0]), head, avoid=put_nodes) is None and cfg.path(hn, head, avoid=put_nodes, exc=True) is None
+    ctx.ob("13.2-one-answer", con, ok, "the worker must answer on the normal path and on the exception path", node=lp, stmt="two put sites (normal, exception)")
     for p in puts:
         a = p.args[0] if p.args else None
-        ok = isinstance(a, ast.Tuple) and len(a.elts) == 2 and dotted(a.elts[0]) == idx
+        ok = isinstance(a, ast.Tuple) and len(a.elts) == 2 and item.component(a.elts[0], cfg.node_of(p)) == 0
         ctx.ob("13.1-worker-index", con, ok, "every answer must carry the index that arrived with the task: the collector places the result by this index, in whatever order tasks complete", node=p)
-    head = cfg.node_of(lp)
-    start = cfg.branch[(head, True)]
-    put_nodes = {cfg.node_of(p) for p in puts}
     done = [c for c in ast.walk(lp) if isinstance(c, ast.Call) and dotted(c.func) == f"{qin}.task_done"]
     done_nodes = {cfg.node_of(c) for c in done}
     ok = bool(put_nodes) and cfg.path(start, head, avoid=put_nodes, exc=True) is None
@@ -71,13 +160,32 @@ def check_worker(ctx: Ctx) -> None:
     ctx.ob("13.2-one-answer", con, not twice, "a task can be answered twice in one iteration (a later task's slot is then never collected)", node=lp, stmt="at most one answer per task")
     ok = bool(done_nodes) and cfg.path(start, head, avoid=done_nodes, exc=True) is None and not any(cfg.path(a, b, avoid={head}, exc=True) is not None for a in done_nodes for b in done_nodes if a != b)
     ctx.ob("13.2-one-answer", con, ok, "task_done must be called exactly once per task", node=(done or [lp])[0], stmt="one task_done per task")
-    # the exception answer carries the exception object
-    tries = [s for s in ast.walk(lp) if isinstance(s, ast.Try)]
-    ok = len(tries) == 1 and len(tries[0].handlers) == 1 and dotted(tries[0].handlers[0].type) == "BaseException" and tries[0].handlers[0].name is not None
+    # the exception answer carries the exception object, and the worker then takes the next task
+    ok = guarded
     if ok:
         en = tries[0].handlers[0].name
-        hp = [p for p in puts if any(sub is p for b in tries[0].handlers[0].body for sub in ast.walk(b))]
-        ok = len(hp) == 1 and dotted(hp[0].args[0].elts[1]) == en and any(isinstance(x, ast.Continue) for b in tries[0].handlers[0].body for x in ast.walk(b))
+        en_binders = _binders(f, cfg, en)
+
+        def is_exception(e: ast.AST | None, use: int) -> bool:
+            """``e`` read at ``use`` after the handler was entered can only be the exception caught by it."""
+            if not isinstance(e, ast.Name):
+                return False
+            defs = _reaching(cfg, _binders(f, cfg, e.id), hn, use, {head})
+            if not defs:
+                return False
+            for d in defs:
+                if d == hn and e.id == en:
+                    continue
+                st = cfg.ast[d] if d is not None else None
+                if isinstance(st, ast.Assign) and len(st.targets) == 1 and isinstance(st.targets[0], ast.Name) and isinstance(st.value, ast.Name) and st.value.id == en and _reaching(cfg, en_binders, hn, d, {head}) == {hn}:
+                    continue
+                return False
+            return True
+
+        hp = [p for p in puts if cfg.path(hn, cfg.node_of(p), avoid={head}, exc=True) is not None]
+        ok = bool(hp) and all(p.args and isinstance(p.args[0], ast.Tuple) and len(p.args[0].elts) == 2 and is_exception(p.args[0].elts[1], cfg.node_of(p)) for p in hp)
+        # ... and goes on with the next task: whatever the handler does, control comes back to the loop header
+        ok = ok and cfg.path(hn, head, exc=True) is not None and cfg.path(hn, cfg.exit, avoid={head}, exc=True) is None and cfg.path(hn, cfg.raise_exit, avoid={head}, exc=True) is None
     ctx.ob("13.3-failure", con, ok, "a failing task must be answered with its own exception (any BaseException) and the worker must go on with the next task", node=(tries or [lp])[0])
     # the dispatcher picks the callable of the task index
     tc = ctx.index.method(CP, "_TaskCallables", "__call__")
@@ -86,6 +194,36 @@ def check_worker(ctx: Ctx) -> None:
     rets = [s for s in stmts_of(tc) if isinstance(s, ast.Return)]
     ok = ok and len(rets) == 1 and isinstance(rets[0].value, ast.Call) and dotted(rets[0].value.args[0]) == tc.args.args[2].arg
     ctx.ob("13.1-worker-item", cname(CP, "_TaskCallables", "__call__"), ok, "with several callables, task i runs callable i on its own input", node=(sub or [tc])[0])
+
+
+def _list_size(e: ast.AST | None) -> ast.AST | None:
+    """The length expression of a list of ``None`` slots: ``[None] * n``, ``n * [None]``, ``[None for _ in range(n)]``."""
+
+    def none_list(x):
+        return isinstance(x, ast.List) and len(x.elts) == 1 and isinstance(x.elts[0], ast.Constant) and x.elts[0].value is None
+
+    if isinstance(e, ast.BinOp) and isinstance(e.op, ast.Mult):
+        if none_list(e.left):
+            return e.right
+        if none_list(e.right):
+            return e.left
+    if isinstance(e, ast.ListComp) and isinstance(e.elt, ast.Constant) and e.elt.value is None and len(e.generators) == 1 and not e.generators[0].ifs:
+        it = e.generators[0].iter
+        if isinstance(it, ast.Call) and dotted(it.func) == "range" and len(it.args) == 1 and not it.keywords:
+            return it.args[0]
+    return None
+
+
+def _iteration_count(it: ast.AST) -> str | None:
+    """Text of the number of iterations of ``for _ in <it>``: ``xs`` and ``range(len(xs))`` both give ``len(xs)``."""
+    if isinstance(it, (ast.Name, ast.Attribute)):
+        return f"len({dotted(it)})"
+    if isinstance(it, ast.Call) and not it.keywords and len(it.args) == 1:
+        if dotted(it.func) == "range":
+            return norm_stmt(it.args[0])
+        if dotted(it.func) in ("enumerate", "list", "tuple", "reversed"):
+            return _iteration_count(it.args[0])
+    return None
 
 
 def check_dispatcher(ctx: Ctx) -> None:
@@ -100,13 +238,22 @@ def check_dispatcher(ctx: Ctx) -> None:
         ok = len(a.elts) == 2 and isinstance(a.elts[1], ast.Subscript) and dotted(a.elts[1].value) == f.args.args[1].arg and dotted(a.elts[1].slice) == dotted(a.elts[0]) and isinstance(a.elts[0], ast.Name)
     ctx.ob("13.1-submit", con, ok, "a task must be submitted as (i, inputs[i]) with one and the same i", node=(task_puts or [f])[0])
     # every index is submitted once: tasks = list(range(n_tasks)) popped until empty
-    tasks = [s for s in stmts_of(f) if isinstance(s, (ast.Assign, ast.AnnAssign)) and dotted(s.targets[0] if isinstance(s, ast.Assign) else s.target) == "tasks" and s.value is not None and "range(n_tasks)" in norm_stmt(s.value)]
+    sv = SymValues(f)
+    n_inputs = f"len({f.args.args[1].arg})"
+
+    def is_n_tasks(e: ast.AST | None) -> bool:
+        """``e`` can only stand for the number of inputs (directly or through locals)."""
+        return e is not None and cfg.has(e) and sv.texts(e) == [n_inputs]
+
+    def range_args(e: ast.AST) -> list[ast.AST]:
+        return [c.args[0] for c in ast.walk(e) if isinstance(c, ast.Call) and dotted(c.func) == "range" and len(c.args) == 1 and not c.keywords]
+
+    tasks = [s for s in stmts_of(f) if isinstance(s, (ast.Assign, ast.AnnAssign)) and dotted(s.targets[0] if isinstance(s, ast.Assign) else s.target) == "tasks" and s.value is not None and range_args(s.value)]
     wl = [s for s in stmts_of(f) if isinstance(s, ast.While) and dotted(s.test) == "tasks"]
     ok = len(tasks) == 1 and len(wl) == 1 and task_puts and any(sub is task_puts[0] for sub in ast.walk(wl[0])) and any(isinstance(x, ast.Assign) and norm_stmt(x.value) == "tasks.pop()" and dotted(x.targets[0]) == dotted(task_puts[0].args[0].elts[0]) for x in ast.walk(wl[0]))
     ctx.ob("13.1-submit", con, bool(ok), "every index 0..n_tasks-1 must be submitted exactly once (pop until the task list is empty)", node=(wl or [f])[0])
-    nt = [s for s in stmts_of(f) if isinstance(s, ast.Assign) and dotted(s.targets[0]) == "n_tasks"]
-    ok = len(nt) == 1 and norm_stmt(nt[0].value) == f"len({f.args.args[1].arg})"
-    ctx.ob("13.1-submit", con, ok, "the number of tasks is the number of inputs", node=(nt or [f])[0])
+    ok = len(tasks) == 1 and len(range_args(tasks[0].value)) == 1 and is_n_tasks(range_args(tasks[0].value)[0])
+    ctx.ob("13.1-submit", con, ok, "the number of tasks is the number of inputs", node=(tasks or [f])[0])
     # collection
     gets = [s for s in stmts_of(f) if isinstance(s, ast.Assign) and isinstance(s.value, ast.Call) and dotted(s.value.func) == "queue_out.get" and isinstance(s.targets[0], ast.Tuple)]
     ctx.need(len(gets) == 1 and len(gets[0].targets[0].elts) == 2, "execute: `index, output = queue_out.get()` not found")
@@ -118,7 +265,7 @@ def check_dispatcher(ctx: Ctx) -> None:
     ok = len(cbs) == 1 and [dotted(a) for a in cbs[0].args] == [i_var, o_var]
     ctx.ob("13.1-collect", con, ok, "callbacks must receive the index and the output received together", node=(cbs or gets)[0])
     init = [s for s in stmts_of(f) if isinstance(s, (ast.Assign, ast.AnnAssign)) and dotted(s.targets[0] if isinstance(s, ast.Assign) else s.target) == "ordered_outputs" and s.value is not None]
-    ok = len(init) == 1 and norm_stmt(init[0].value) == "[None] * n_tasks"
+    ok = len(init) == 1 and is_n_tasks(_list_size(init[0].value))
     ctx.ob("13.1-collect", con, ok, "the result list must have one slot per task", node=(init or [f])[0])
     rets = [s for s in stmts_of(f) if isinstance(s, ast.Return) and dotted(s.value) == "ordered_outputs"]
     ctx.ob("13.1-collect", con, len(rets) == 1, "the slots are what is returned", node=(rets or [f])[0])
@@ -126,19 +273,53 @@ def check_dispatcher(ctx: Ctx) -> None:
     exc_tests = [n for n in cfg.nodes(lambda k: cfg.kind[k] == "test") if norm_stmt(cfg.ast[n].test) == f"isinstance({o_var}, BaseException)"]
     ok = len(exc_tests) == 1 and slot and cbs and cfg.under_branch(cfg.node_of(slot[0]), exc_tests[0], False) and cfg.under_branch(cfg.node_of(cbs[0]), exc_tests[0], False)
     ctx.ob("13.3-success-only", con, bool(ok), "slot assignment and callbacks belong to the non-exception branch: a failed task must leave its slot empty and trigger no callback", node=(cbs or gets)[0])
-    stops = [s for s in stmts_of(f) if isinstance(s, ast.Assign) and dotted(s.targets[0]) == "stop" and isinstance(s.value, ast.Constant) and s.value.value is True]
-    ok = len(stops) == 1
-    if ok:
-        conds = [norm_stmt(cfg.ast[t].test) for t, v in branch_conditions(cfg, cfg.node_of(stops[0])) if v and cfg.kind[t] == "test"]
-        ok = any("__exceptions_to_re_raise" in c for c in conds) and any(c == f"isinstance({o_var}, BaseException)" for c in conds)
+    # every assignment that can make ``stop`` true: `stop = True` under the two tests, or `stop = <the tests>`
+    stops = [s for s in stmts_of(f) if isinstance(s, (ast.Assign, ast.AnnAssign, ast.AugAssign)) and "stop" in [dotted(t) for t in (s.targets if isinstance(s, ast.Assign) else [s.target])] and s.value is not None and not (isinstance(s.value, ast.Constant) and s.value.value is False)]
+    ok = bool(stops)
+    for st in stops:
+        if not isinstance(st, (ast.Assign, ast.AnnAssign)) or (isinstance(st, ast.Assign) and len(st.targets) != 1):
+            ok = False
+            break
+        conds = [norm_stmt(lit) for t, v in branch_conditions(cfg, cfg.node_of(st)) if v and cfg.kind[t] == "test" for pol, lit in conj_literals(cfg.ast[t].test) if pol]
+        # `stop = stop or <c>`: each disjunct other than the flag itself must imply the two tests
+        disjuncts = st.value.values if isinstance(st.value, ast.BoolOp) and isinstance(st.value.op, ast.Or) else [st.value]
+        for d in disjuncts:
+            if dotted(d) == "stop":
+                continue
+            own = [] if isinstance(d, ast.Constant) and d.value is True else [norm_stmt(lit) for pol, lit in conj_literals(d) if pol]
+            if not own and not (isinstance(d, ast.Constant) and d.value is True):
+                ok = False
+            allc = conds + own
+            if not (any(c.startswith(f"isinstance({o_var}, ") and "__exceptions_to_re_raise" in c for c in allc) and any(c == f"isinstance({o_var}, BaseException)" for c in allc)):
+                ok = False
     ctx.ob("13.3-stop", con, ok, "collection may be interrupted only by an exception listed in exceptions_to_re_raise: any other failure affects only its own slot", node=(stops or [f])[0])
     # counting
     wl2 = [s for s in stmts_of(f) if isinstance(s, ast.While) and "n_outputs" in names_in(s.test)]
     ok = len(wl2) == 1
     if ok:
-        incs = [s for s in ast.walk(wl2[0]) if isinstance(s, ast.AugAssign) and dotted(s.target) == "n_outputs"]
         head = cfg.node_of(wl2[0])
-        ok = len(incs) == 1 and cfg.path(cfg.branch[(head, True)], head, avoid={cfg.node_of(incs[0])}) is None and "n_outputs != n_tasks" in norm_stmt(wl2[0].test)
+        inside = {cfg.node_of(s) for s in ast.walk(wl2[0]) if isinstance(s, ast.stmt) and s is not wl2[0] and cfg.has(s)}
+        incs = [s for s in ast.walk(wl2[0]) if isinstance(s, ast.stmt) and as_update(s) is not None and dotted(as_update(s)[0]) == "n_outputs" and isinstance(as_update(s)[1], ast.Add) and isinstance(as_update(s)[2], ast.Constant) and as_update(s)[2].value == 1]
+        # the counter starts at 0 before the loop and is changed by nothing but the increment
+        others = _binders(f, cfg, "n_outputs") - {cfg.node_of(s) for s in incs}
+        starts_at_0 = bool(others) and all(b not in inside and isinstance(cfg.ast[b], (ast.Assign, ast.AnnAssign)) and isinstance(cfg.ast[b].value, ast.Constant) and cfg.ast[b].value.value == 0 and type(cfg.ast[b].value.value) is int and cfg.dominates(b, head) for b in others)
+        ok = len(incs) == 1 and starts_at_0 and cfg.path(cfg.branch[(head, True)], head, avoid={cfg.node_of(incs[0])}) is None
+        if ok:
+            # given 0 <= n_outputs <= n_tasks (which this very test keeps true) the loop goes on while an answer is missing
+            # unless it was stopped, and ends when none is: `n_outputs < n_tasks` is the same predicate as `!=`,
+            # `n_outputs <= n_tasks` is not (it waits for an answer that never comes)
+            from gv.ordering import Unsupported
+            from gv.ordering import same_predicate
+
+            atoms = {"n_outputs": "a", "stop": "s", n_inputs: "b"}
+            for x in ast.walk(wl2[0].test):
+                if isinstance(x, ast.Name) and x.id not in atoms and is_n_tasks(x):
+                    atoms[x.id] = "b"
+            pred = ast.parse("def _p():\n    return " + ast.unparse(wl2[0].test)).body[0]
+            try:
+                ok = same_predicate(pred, atoms, lambda a, b, s: a != b, where=lambda a, b, s: 0 <= a <= b and (s == 0 or a == b))[0]
+            except Unsupported:
+                ok = False
     ctx.ob("13.2-count", con, ok, "every answer (success or failure) must be counted once and collection must go on until all tasks have answered", node=(wl2 or [f])[0])
     # shutdown: one sentinel per started process, then join
     started = [c for c in walk_body(f) if isinstance(c, ast.Call) and norm_stmt(c.func) == "processes.append"]
@@ -147,7 +328,7 @@ def check_dispatcher(ctx: Ctx) -> None:
     if ok:
         sl = [s for s in stmts_of(f) if isinstance(s, ast.For) and any(sub is sent[0] for sub in ast.walk(s))]
         jl = [s for s in stmts_of(f) if isinstance(s, ast.For) and any(isinstance(c, ast.Call) and last_attr(c) == "join" for c in ast.walk(s))]
-        ok = len(sl) == 1 and dotted(sl[0].iter) == "processes" and len(jl) == 1 and dotted(jl[0].iter) == "processes" and cfg.reachable(cfg.node_of(sl[0]), cfg.node_of(jl[0])) and not cfg.reachable(cfg.node_of(jl[0]), cfg.node_of(sl[0]))
+        ok = len(sl) == 1 and _iteration_count(sl[0].iter) == "len(processes)" and len(jl) == 1 and dotted(jl[0].iter) == "processes" and cfg.reachable(cfg.node_of(sl[0]), cfg.node_of(jl[0])) and not cfg.reachable(cfg.node_of(jl[0]), cfg.node_of(sl[0]))
         ok = ok and wl2 and cfg.reachable(cfg.node_of(wl2[0]), cfg.node_of(sl[0]))
     ctx.ob("13.3-shutdown", con, bool(ok), "after collection one None sentinel per started worker must be queued, then every worker joined (fewer sentinels leave workers blocked forever)", node=(sent or [f])[0])
     # 13.6 definite assignment
@@ -176,12 +357,57 @@ def check_doe(ctx: Ctx) -> None:
     lk = rules.assigns_to_self(init, "lock")
     pass
     r = ctx.index.method(DOE, "BaseDOELibrary", "_run")
-    ap = [c for c in walk_body(r) if isinstance(c, ast.Call) and norm_stmt(c.func) == "callbacks.append" and "__store_in_database" in norm_stmt(c.args[0])]
     cfg = cfg_of(r)
-    ok = len(ap) == 1 and any(v and dotted(cfg.ast[t].test) == "use_database" for t, v in branch_conditions(cfg, cfg.node_of(ap[0])) if cfg.kind[t] == "test")
-    ex = [c for c in walk_body(r) if isinstance(c, ast.Call) and last_attr(c) == "execute" and c.args and dotted(c.args[0]) == "self.samples"]
-    ok = ok and len(ex) == 1 and any(k.arg == "exec_callback" and dotted(k.value) == "callbacks" for k in ex[0].keywords) and cfg.reachable(cfg.node_of(ap[0]), cfg.node_of(ex[0]))
-    ctx.ob("13.1-doe-slot", cname(DOE, "BaseDOELibrary", "_run"), ok, "with a database, the storing callback must be among the callbacks of the parallel execution over self.samples", node=(ap or [r])[0])
+    # the parallel execution over self.samples, its arguments bound through the signature of execute()
+    params = [a_.arg for a_ in ctx.index.method(CP, "CallableParallelExecution", "execute").args.args][1:]
+
+    def bound(call: ast.Call) -> dict[str, ast.AST]:
+        if any(isinstance(a_, ast.Starred) for a_ in call.args) or len(call.args) > len(params):
+            return {}
+        return {**dict(zip(params, call.args)), **{k.arg: k.value for k in call.keywords if k.arg in params}}
+
+    ex = [c for c in walk_body(r) if isinstance(c, ast.Call) and last_attr(c) == "execute" and dotted(bound(c).get("inputs")) == "self.samples"]
+    cb = bound(ex[0]).get("exec_callback") if len(ex) == 1 else None
+
+    def is_store(e: ast.AST) -> bool:
+        return isinstance(e, ast.Attribute) and dotted(e.value) == "self" and e.attr.endswith("__store_in_database")
+
+    def has_store(e: ast.AST) -> bool:
+        """A list expression one element of which is the storing callback: [.., s], [*xs, s], xs + [s]."""
+        if isinstance(e, (ast.List, ast.Tuple)):
+            return any(is_store(x) for x in e.elts)
+        if isinstance(e, ast.BinOp) and isinstance(e.op, ast.Add):
+            return has_store(e.left) or has_store(e.right)
+        return False
+
+    ok = False
+    node = r
+    if isinstance(cb, ast.Name):
+        node = ex[0]
+        # (a) the list is extended in place (append / extend / += / insert) with a database, on the way to execute()
+        adds = []
+        for st in stmts_of(r):
+            if isinstance(st, ast.Expr) and isinstance(st.value, ast.Call) and isinstance(st.value.func, ast.Attribute) and dotted(st.value.func.value) == cb.id:
+                c, m = st.value, st.value.func.attr
+                if (m == "append" and len(c.args) == 1 and is_store(c.args[0])) or (m == "extend" and len(c.args) == 1 and has_store(c.args[0])) or (m == "insert" and len(c.args) == 2 and is_store(c.args[1])):
+                    adds.append(st)
+            elif isinstance(st, ast.AugAssign) and dotted(st.target) == cb.id and isinstance(st.op, ast.Add) and has_store(st.value):
+                adds.append(st)
+        rebinds = _binders(r, cfg, cb.id)
+        for ad in adds:
+            an = cfg.node_of(ad)
+            under_db = any(v and dotted(cfg.ast[t].test) == "use_database" for t, v in branch_conditions(cfg, an) if cfg.kind[t] == "test")
+            # ... and the extended list is the one that reaches execute() (not re-bound in between)
+            if under_db and cfg.path(an, cfg.node_of(ex[0]), avoid=rebinds - {an}) is not None and not any(cfg.reachable(an, b_) and cfg.reachable(b_, cfg.node_of(ex[0])) for b_ in rebinds - {an}):
+                ok = True
+                node = ad
+        # (b) the list is re-built with the callback in it: with a database, every value of the argument contains it
+        if not ok:
+            from gv.props.shared import unfolded
+
+            alts = unfolded(r, ex[0], {"use_database": True}, get=lambda c_: bound(c_).get("exec_callback"))
+            ok = bool(alts) and all(has_store(a_) for a_ in alts)
+    ctx.ob("13.1-doe-slot", cname(DOE, "BaseDOELibrary", "_run"), ok, "with a database, the storing callback must be among the callbacks of the parallel execution over self.samples", node=node)
 
 
 FDF = "utils/derivatives/finite_differences.py"
@@ -338,8 +564,15 @@ WITNESSES = [
     {"name": "cache-write-unlocked", "file": "caches/base_full_cache.py", "old": "    @synchronized\n    def cache_jacobian(", "new": "    def cache_jacobian(", "expect": "13.4"},
     {"name": "preseed-after-parallel-run", "file": DOE, "old": "                for sample in self.samples:\n                    database.store(sample, {})\n", "new": "", "expect": "13.5"},
     {"name": "output-unbound-for-no-task", "file": CP, "old": "        stop = False\n        output = None\n", "new": "        stop = False\n", "expect": "13.6"},
+    {"name": "counter-starts-at-one", "file": CP, "old": "        n_outputs = 0\n", "new": "        n_outputs = 1\n", "expect": "13.2"},
+    {"name": "collect-one-answer-too-many", "file": CP, "old": "while n_outputs != n_tasks and not stop:", "new": "while n_outputs <= n_tasks and not stop:", "expect": "13.2"},
+    {"name": "one-slot-too-few", "file": CP, "old": "= [None] * n_tasks", "new": "= [None] * (n_tasks - 1)", "expect": "13.1"},
+    {"name": "worker-stops-after-a-failure", "file": CP, "old": "            queue_out.put((task_index, err))\n            queue_in.task_done()\n            continue\n", "new": "            queue_out.put((task_index, err))\n            queue_in.task_done()\n            break\n", "expect": "13.3"},
 ]
 TWINS = [
+    {"name": "collect-while-fewer-answers", "file": CP, "old": "while n_outputs != n_tasks and not stop:", "new": "while n_outputs < n_tasks and not stop:"},
+    {"name": "worker-single-answer-site", "file": CP, "old": "            traceback.print_exc()\n            queue_out.put((task_index, err))\n            queue_in.task_done()\n            continue\n", "new": "            traceback.print_exc()\n            output = err\n"},
+
     {"name": "optimal-step-slot-index-commuted", "file": FDF, "old": "                f_m = outputs[n_dim + i + 1]", "new": "                f_m = outputs[1 + i + n_dim]"},
     {"name": "rename-index", "file": CP, "old": "            index, output = queue_out.get()", "new": "            index, output = queue_out.get(block=True)"},
 ]
